@@ -55,6 +55,30 @@ def setup(ctx):
     pydot.Dot.write = write
 
 
+def _lossless(rng):
+    def c(name, kind, args, parents, group=""):
+        return {"name": name, "kind": kind, "args": args, "parents": parents, "group": group, "rail": "", "limits": None, "phase": None,
+                "via_rail": [False] * len(parents)}
+
+    comps = [c("Cell", "Source", {"vo": G.sig(rng.uniform(3.0, 12.0)), "rs": rng.choice([0.0, 0])}, [])]
+    shape = rng.choice(["source_only", "one_load", "tree", "tree"])
+    if shape != "source_only":
+        comps.append(c("MCU", rng.choice(["ILoad", "PLoad"]), {"ii": 0.01} if False else {}, ["Cell"]))
+        comps[-1]["args"] = {"ii": G.sig(rng.uniform(0.001, 0.2))} if comps[-1]["kind"] == "ILoad" else {"pwr": G.sig(rng.uniform(0.01, 0.5))}
+    if shape == "tree":
+        comps.append(c("Jumper", "RLoss", {"rs": 0.0}, ["Cell"], "Board"))
+        comps.append(c("Ideal buck", "Converter", {"vo": 1.8, "eff": rng.choice([1.0, 1])}, ["Jumper"], "Board"))
+        comps.append(c("Core", "PLoad", {"pwr": G.sig(rng.uniform(0.01, 0.3))}, ["Ideal buck"], "Board"))
+        comps.append(c("Gate", "PSwitch", {"rs": 0.0}, ["Cell"]))
+        comps.append(c("Radio", "RLoad", {"rs": G.sig(rng.uniform(100, 1000))}, ["Gate"]))
+    phases = {}
+    if shape == "tree" and rng.random() < 0.5:
+        phases = {"run": 10.0, "idle": 50.0}
+        comps[-1]["phase"] = {"run": comps[-1]["args"]["rs"], "idle": comps[-1]["args"]["rs"] * 10}
+    return {"name": "lossless", "comps": comps, "phases": phases, "phases_first": True,
+            "_meta": {"regime": "benign", "shape": shape, "polarity": "pos"}}
+
+
 def gen(rng, i, tier):
     hostile = tier == "thorough" and rng.random() < 0.3
     spec = G.gen_system(
@@ -63,7 +87,18 @@ def gen(rng, i, tier):
         groups=rng.choice([0.0, 0.5, 0.9]), names="realistic", rails=0.2, general2d=0.0,
     )
     scale = 1.0
-    if rng.random() < 0.25:
+    heat = rng.random() < 0.5
+    if i % 10 == 3:
+        # fixed share: nano / pico-power systems (largest loss far below 1e-8 W) drawn as HEAT diagrams
+        scale = 10 ** rng.uniform(-12, -9)
+        spec = G.scale_currents(spec, scale)
+        heat = True
+    elif i % 10 == 6:
+        # fixed share: completely LOSS-LESS systems (ideal sources, rs = 0 elements, 100 % converters, loads that do
+        # not count as loss) drawn as heat diagrams
+        spec = _lossless(rng)
+        heat = True
+    elif rng.random() < 0.25:
         # micro / nano / pico-power systems: the SI formatting and the colour scale must work there too
         scale = 10 ** rng.uniform(-9, -3)
         spec = G.scale_currents(spec, scale)
@@ -84,7 +119,7 @@ def gen(rng, i, tier):
     for c in spec["comps"]:
         if c.get("group"):
             c["group"] = gmap.get(c["group"], c["group"])
-    return {"spec": spec, "cseed": rng.randrange(1 << 40), "heat": rng.random() < 0.5, "group": rng.random() < 0.75,
+    return {"spec": spec, "cseed": rng.randrange(1 << 40), "heat": heat, "group": rng.random() < 0.75,
             "render": i % 9 == 0, "hostile": hostile, "current_scale": scale,
             # the drawn system may be the product of an edit history (registries out of node order, index gaps)
             "history": ["fresh", "identity_change_comp", "index_gaps", "solve_then_move_leaf", "solve_then_phase_conf", "solve_then_change_comp",
